@@ -13,6 +13,7 @@ from __future__ import annotations
 
 import copy
 import json
+import time
 import urllib.parse
 
 from harness import core
@@ -984,6 +985,8 @@ def gen_document(rng, version, n_ops, allow_findings):
             raw["components"] = comp
     else:
         raw = {"swagger": "2.0", "info": {"title": "t", "version": "1"}, "paths": paths}
+    for o in ops:
+        o["twin_pairs_in_document"] = plan.twins_planted
     return raw, ops
 
 
@@ -1010,8 +1013,11 @@ def parse_request(r):
     return {"path": path, "method": r["method"], "query": query, "headers": headers, "cookies": cookies, "ctype": ctype, "body": parsed}
 
 
-def wire(v):
-    return str(v)
+def wires(v):
+    """Textual forms of a parameter example on the wire; type-strict: a boolean is never accepted as 0/1 or vice versa."""
+    if v is True or v is False:
+        return {str(v), str(v).lower()}
+    return {str(v)}
 
 
 def dig(obj, path):
@@ -1025,17 +1031,17 @@ def dig(obj, path):
 def example_sent(e, reqs):
     for r in reqs:
         if e["loc"] == "query":
-            if wire(e["value"]) in r["query"].get(e["name"], []):
+            if wires(e["value"]) & set(r["query"].get(e["name"], [])):
                 return True
         elif e["loc"] == "header":
-            if r["headers"].get(e["name"].lower()) == wire(e["value"]):
+            if r["headers"].get(e["name"].lower()) in wires(e["value"]):
                 return True
         elif e["loc"] == "cookie":
-            if urllib.parse.unquote(r["cookies"].get(e["name"], "\0")) == wire(e["value"]) or r["cookies"].get(e["name"]) == wire(e["value"]):
+            if urllib.parse.unquote(r["cookies"].get(e["name"], "\0")) in wires(e["value"]) or r["cookies"].get(e["name"]) in wires(e["value"]):
                 return True
         elif e["loc"] == "path":
             seg = r["path"].rsplit("/", 1)[-1]
-            if seg == wire(e["value"]) or urllib.parse.unquote_plus(seg) == wire(e["value"]) or urllib.parse.unquote(seg) == wire(e["value"]):
+            if {seg, urllib.parse.unquote_plus(seg), urllib.parse.unquote(seg)} & wires(e["value"]):
                 return True
         elif e["loc"] == "body":
             if r["ctype"] != e["media_type"] or r["body"] is None:
@@ -1044,7 +1050,7 @@ def example_sent(e, reqs):
                 if r["body"][0] != "json":
                     continue
                 got = dig(r["body"][1], e["path"])
-                if got[0] == "found" and canon(got[1]) == canon(e["value"]):
+                if got[0] == "found" and strict_key(got[1]) == strict_key(e["value"]):  # type-strict: false != 0, true != 1
                     return True
             elif r["body"][1] == str(e["value"]).encode("utf-8"):
                 return True
@@ -1134,8 +1140,16 @@ def stage_oracle(chk, n_docs):
     for i in range(n_docs):
         version = 3 if rng.random() < 0.75 else 2
         docs.append(gen_document(rng, version, rng.choice([3, 5, 8]), allow_findings=(i % 3 == 2)))
-    n_ops = n_expect = n_fail = 0
+    n_ops = n_expect = n_fail = n_done = n_twins = 0
+    # a broken proof / correspondence multiplies the search by 10, but the whole check must stay under ~4 minutes:
+    # stop at the deadline, or as soon as a handful of concrete failing inputs outside the listed regions is in hand
+    deadline = chk.t0 + 200 if chk.broken else None
     for raw, ops in docs:
+        if deadline is not None and (time.time() > deadline or len(chk.failures) >= 8):
+            chk.notes.append(f"search stopped after {n_done} of {len(docs)} documents (time cap / enough failing inputs)")
+            break
+        n_done += 1
+        n_twins += ops[0].get("twin_pairs_in_document", 0) if ops else 0
         try:
             fails = check_document(chk, raw, ops)
         except Exception as exc:  # noqa: BLE001
@@ -1147,7 +1161,13 @@ def stage_oracle(chk, n_docs):
         for what, detail, region in fails:
             n_fail += 1
             chk.fail(what, {"detail": detail, "raw": raw, "ops": ops}, detail, region=region)
-    chk.stages["oracle_engine_examples_phase"] = {"documents": len(docs), "operations": n_ops, "planted_examples": n_expect, "failures_incl_known_regions": n_fail}
+    chk.stages["oracle_engine_examples_phase"] = {
+        "documents": n_done,
+        "operations": n_ops,
+        "planted_examples": n_expect,
+        "slots_with_python_equal_twins": n_twins,
+        "failures_incl_known_regions": n_fail,
+    }
 
 
 # ----------------------------------------------------------------------------------------
